@@ -30,6 +30,14 @@ def success_edges_of_reads(ctx, b):
     return out
 
 
+def _with_read_helpers_in_place(ctx, b):
+    """next_block analysed with its small block-reading helpers in place (A-INLINE on demand): whether the read is
+    factored into a helper, and whether that helper answers with a bool or a private enum, is the same code."""
+    def pred(cb):
+        return cb.path.startswith('rolling::') and len(cb.blocks) < 60 and any(c.node is None and c.name.endswith('read_exact') for c in cb.calls)
+    return ctx.f.inlined(b, pred, 'nb')
+
+
 @rule('NB1', ['C01', 'C02', 'C07'], floor=4, template='guard-dominates-use')
 def nb1(ctx):
     """The rolling reader moves (file, file number, block id) only after a block was read successfully."""
@@ -37,7 +45,7 @@ def nb1(ctx):
     if not bs:
         ctx.missing('next_block', 'BlockRead::next_block impl of RollingReader not found')
         return
-    b = bs[0]
+    b = _with_read_helpers_in_place(ctx, bs[0])
     succ = success_edges_of_reads(ctx, b)
     if not succ:
         ctx.missing('reads', 'no `?`-checked block read found in next_block')
@@ -148,7 +156,7 @@ def nb2(ctx):
     if not bs:
         ctx.missing('next_block', 'BlockRead::next_block impl of RollingReader not found')
         return
-    b = bs[0]
+    b = _with_read_helpers_in_place(ctx, bs[0])
     st = {}
     for (p, pl, rv) in b.stores:
         loc = mem_loc(pl)
